@@ -11,17 +11,19 @@ struct Prog { bool is_void; bool coro_mode; std::vector<Op> ops; };
 inline Prog decode(hz::Reader &r) {
     Prog p; p.is_void = r.mod(4) == 0; p.coro_mode = r.mod(3) == 0;
     unsigned n = 0;
-    while (r.more() && n < 40) { Op o; o.code = (uint8_t)r.mod(10); o.a = r.u8(); o.b = r.u8(); p.ops.push_back(o); n++; }
+    while (r.more() && n < 40) { Op o; o.code = (uint8_t)r.mod(11); o.a = r.u8(); o.b = r.u8(); p.ops.push_back(o); n++; }
     return p;
 }
 static const char *opn[] = {"add coroutine listener", "connect callback", "emit(by value)", "emit(rvalue)", "emit(lvalue ref)", "copy handle", "drop handle",
-                            "listener subscribes on another thread", "emit(by value)", "add coroutine listener"};
+                            "listener subscribes on another thread", "emit(by value)", "add coroutine listener",
+                            "hook-up episode (a coroutine registers through signal::hook_up and receives from the collector it was handed)"};
 inline std::string describe(const Prog &p) {
     hz::Desc d; d << (p.is_void ? "signal<void>" : "signal<int>") << (p.coro_mode ? ", collector called from a coroutine (emission co_awaited)" : ", collector called from ordinary code") << ", " << (unsigned)p.ops.size() << " ops:";
     for (auto &o : p.ops) {
         d << " " << opn[o.code];
         if (o.code == 0 || o.code == 9 || o.code == 7) d << "(" << (o.a % 4 == 3 ? std::string("until cancelled") : std::to_string(1 + o.a % 4) + " values") << ")";
         if (o.code == 1) d << "(true x" << (unsigned)(o.a % 4) << " then false)";
+        if (o.code == 10) d << "(listener wants " << (o.a % 4 == 3 ? std::string("every value") : std::to_string(1 + o.a % 4)) << ", " << (unsigned)(o.b % 5) << " values emitted, then the collector is dropped)";
     }
     d << "; drop all handles";
     return d.s;
@@ -119,6 +121,34 @@ struct Run {
             }
         }
     }
+    // hook_up: the first co_await creates a signal of its own, suspends the coroutine on it and only then hands the
+    // collector to the registration function - the very first emission must not be missed
+    std::optional<typename S::collector> hooked;
+    cocls::async<void> hook_listener(LRec *pr) {
+        LRec &r = *pr;
+        auto e = S::hook_up([this](typename S::collector c) { hooked.emplace(std::move(c)); });
+        for (int i = 0; r.want < 0 || i < r.want; i++) {
+            try {
+                if constexpr (VOID) { co_await e; r.got.push_back(-1); }
+                else { int &v = co_await e; r.got.push_back(v); }
+            } catch (const cocls::await_canceled_exception &) { r.cancelled = true; co_return; }
+        }
+        r.left = true;
+    }
+    void hook_episode(int want, int emit_n) {
+        size_t id = L.size();
+        L.emplace_back(); LRec &r = L[id]; r.want = want; r.active = false;      // not reached by the main signal's emissions
+        hook_listener(&r).detach();
+        HZ_CHECK(hooked.has_value(), "hook_up did not call the registration function when the coroutine suspended on it");
+        for (int k = 0; k < emit_n; k++) {
+            int v = VOID ? -1 : 900 + k;
+            if (want < 0 || k < want) r.expect.push_back(v);
+            if constexpr (VOID) (*hooked)(); else (*hooked)(int(v));
+        }
+        hooked.reset();                                  // last handle: a listener still waiting is cancelled
+        r.expect_cancel = want < 0 || emit_n < want;
+        HZ_CHECK(r.left == !r.expect_cancel, "hook-up listener %s although it %s", r.left ? "left" : "did not leave", r.expect_cancel ? "was still waiting when the collector was dropped" : "had received everything it wanted");
+    }
     void compare(const char *after) {
         for (size_t i = 0; i < L.size(); i++) {
             LRec &r = L[i];
@@ -177,6 +207,7 @@ void run_t(const Prog &p) {
                     else if (R.cols.size() > 0 && (R.sigs.size() + R.cols.size() > 1 || (o.b & 3) == 0)) R.cols.erase(R.cols.begin() + (long)(o.b % R.cols.size()));
                     if (!R.has_handles()) R.disconnect_model();
                 } break;
+                case 10: R.hook_episode(o.a % 4 == 3 ? -1 : 1 + o.a % 4, o.b % 5); break;
                 case 7: threaded = true; R.add_listener(o.a % 4 == 3 ? -1 : 1 + o.a % 4, true, (o.b & 1) && !R.pending_thread.joinable()); break;
             }
             if (!R.pending_thread.joinable()) R.compare(opn[o.code]);
